@@ -215,10 +215,17 @@ def build(modname):
                 _writes(T, 'body')
                 for spec in T.get('threads', []):
                     _start_thread(tidx, spec)
-                for k, out in enumerate(T.get('subs', [])):
-                    with self.subTest(k=k):
-                        emit('t_sub', tidx, k)
-                        _act(self, out)
+                import contextlib
+                import io
+                # a test that redirects stdout around its subtests puts back whatever sys.stdout was when it entered
+                redirect = contextlib.redirect_stdout(io.StringIO()) if T.get('redirect_sub') else contextlib.nullcontext()
+                with redirect:
+                    for k, out in enumerate(T.get('subs', [])):
+                        with self.subTest(k=k):
+                            emit('t_sub', tidx, k)
+                            _act(self, out)
+                if T.get('redirect_sub'):
+                    _writes(T, 'after_redirect')
                 _act(self, T.get('body', 'ok'))
             body.__name__ = mname
             if T.get('doc'):
